@@ -50,15 +50,16 @@ func runErrorFlow(c *core.Ctx, rule string, isSeed func(*ssa.Function, ssa.CallI
 func init() {
 	register(&Property{
 		ID:    "C10",
-		Rules: []string{"C10-R1", "C10-R2", "C10-R3", "C08-R6"},
+		Rules: []string{"C10-R1", "C10-R2", "C10-R3", "C10-R4", "C08-R6"},
 		Explain: "Decides that an input-side failure cannot end in success: C10-R1 scanner typestate — every return of the parser after Scan() reported false has consulted Scanner.Err(), a non-nil scanner error is returned and nothing is delivered after it (every failing byte offset, an over-long line and a directory opened as a file are this one abstract event); " +
 			"C10-R2 must-flow of errors — for every call site that can return an open/read/scan error, directly or through the chain of repository functions up to main, on every path on which the call fails the enclosing function returns a non-nil error, sends it on a channel or ends in log.Fatal; " +
-			"C10-R3 no ParseCallback of the tree, given a good record, asks the parser to stop without returning an error (an early stop is a success on a prefix of the file). C08-R6 (shared) the file helper opens every name it is asked for and hands the opened file itself on (nothing is skipped or substituted in silence).",
+			"C10-R3 no ParseCallback of the tree, given a good record, asks the parser to stop without returning an error (an early stop is a success on a prefix of the file). C10-R4 the scanner of the parser reads the reader it was handed as it is (not capped or transformed on the way) and splits it with bufio.ScanLines. C08-R6 (shared) the file helper opens every name it is asked for and hands the opened file itself on (nothing is skipped or substituted in silence).",
 		NotDecided:  "that all headings and entries were taken into account when a command succeeds (C04 decides what the parser delivers; C10-R3 that no consumer stops early)",
 		Assumptions: []string{"bufio.Scanner reports read failures and over-long lines only through Err()", "urfave/cli App.Run returns the action's error"},
 		Run: func(c *core.Ctx) {
 			analyseParserLoop(c, map[string]bool{"C10-R1": true})
 			ruleOtherScanners(c, "C10-R1")
+			ruleScannerSetup(c, "C10-R4")
 			ruleCallbackConsumers(c, map[string]bool{"C10-R3": true})
 			ruleFileReaders(c, "C08-R6") // every name a command asks for is opened and handed on: nothing is skipped in silence
 			runErrorFlow(c, "C10-R2", func(cal *ssa.Function, ci ssa.CallInstruction) (bool, string) {
